@@ -1,5 +1,287 @@
+"""C12 - one-edit neighbourhood generators and the set utilities on them are exact."""
 from .. import AnalysisBroken
+from ..cond import compare_trees
+from ..rf import RFContext
+from ..rules import Equiv, canon_binders, canon_params, check_equiv, compare_function, std_rewrites, where_of
+from ..terms import FALSE, NONE, TRUE, const, head, is_const, show, strip, strip_all, subst, walk
+
+CLAIMED = True
+LEVEL = "other"
+TECHNIQUE = "loop-nest enumeration normal form: every yield is normalised to an edit term (kept slices + inserted symbol), its position / letter domains compared as affine ranges and its skip guard compared by truth table with the canonical dedupe rules of DESIGN A.3; loop-closed comparison of the set utilities with a specification"
+TEXT = ("Decides that levenshtein_neighbors consists of exactly three enumeration blocks whose yielded strings normalise to DEL(i), i in [0, n); SUB(i, a), i in [0, n), "
+        "a in alphabet; INS(i, a), i in [0, n], a in alphabet, each guarded by one of the two canonical skip rules of Appendix A.3 (first-/last-of-run deletion, "
+        "identity substitution, insertion next to an equal letter) and by nothing else - a weaker guard duplicates, a stronger one loses strings; that "
+        "hamming_neighbors is SUB(i, a) over the permitted positions with the identity skipped; that next_nearest_neighbors iterates the neighbourhood union "
+        "maxdistance - 1 further rounds and removes x; that the pair / index / count / isdist1 utilities intersect set(neighborhood(x)) with the reference as "
+        "specified (each unordered pair once); that the nested Hamming enumerations substitute at strictly increasing positions with the identity skipped at "
+        "every level and test the fully substituted string; that nndist_hamming returns the first d in 0..3 with a hit or maxdist == d, else 4. Exactness of the "
+        "scheme itself is Appendix A.3 / A.4 (paper). Grade B.")
+NOTE = "Trusted: DESIGN Appendix A.3 (canonical one-edit enumeration), A.4; Python slicing semantics x[:i] + a + x[i+1:]."
+
+D = "pyrepseq.distance."
+SPEC = '''
+def next_nearest_neighbors(x, neighborhood, maxdistance=2):
+    neighbors = [list(neighborhood(x))]
+    distance = 1
+    while distance < maxdistance:
+        neighbors_dist = []
+        for y in neighbors[-1]:
+            neighbors_dist.extend(neighborhood(y))
+        neighbors.append(set(neighbors_dist))
+        distance += 1
+    neighbor_set = set(_flatten_list(neighbors))
+    neighbor_set.discard(x)
+    return neighbor_set
+
+def find_neighbor_pairs(seqs, neighborhood=hamming_neighbors):
+    reference = set(seqs)
+    pairs = []
+    for x in sorted(set(seqs)):
+        for y in set(neighborhood(x)) & reference:
+            pairs.append((x, y))
+        reference.remove(x)
+    return pairs
+
+def find_neighbor_pairs_index(seqs, neighborhood=hamming_neighbors):
+    reference = set(seqs)
+    seqs_list = list(seqs)
+    pairs = []
+    for i, x in enumerate(seqs):
+        for y in set(neighborhood(x)) & reference:
+            pairs.append((i, seqs_list.index(y)))
+    return pairs
+
+def calculate_neighbor_numbers(seqs, reference=None, neighborhood=levenshtein_neighbors):
+    if reference is None:
+        reference = set(seqs)
+    return np.array([len(set(neighborhood(seq)) & reference) for seq in seqs])
+
+def isdist1(x, reference, neighborhood=levenshtein_neighbors):
+    for neighbor in neighborhood(x):
+        if neighbor in reference:
+            return True
+    return False
+
+def _isdist2_hamming(x, reference):
+    for i in range(len(x)):
+        for aai in aminoacids:
+            if aai == x[i]:
+                continue
+            si = x[:i] + aai + x[i + 1:]
+            for j in range(i + 1, len(x)):
+                for aaj in aminoacids:
+                    if aaj == x[j]:
+                        continue
+                    if si[:j] + aaj + si[j + 1:] in reference:
+                        return True
+    return False
+
+def _isdist3_hamming(x, reference):
+    for i in range(len(x)):
+        for aai in aminoacids:
+            if aai == x[i]:
+                continue
+            si = x[:i] + aai + x[i + 1:]
+            for j in range(i + 1, len(x)):
+                for aaj in aminoacids:
+                    if aaj == x[j]:
+                        continue
+                    sij = si[:j] + aaj + si[j + 1:]
+                    for k in range(j + 1, len(x)):
+                        for aak in aminoacids:
+                            if aak == x[k]:
+                                continue
+                            if sij[:k] + aak + sij[k + 1:] in reference:
+                                return True
+    return False
+
+def nndist_hamming(seq, reference, maxdist=4):
+    if maxdist > 4:
+        raise NotImplementedError
+    if seq in reference:
+        return 0
+    if maxdist == 1 or isdist1(seq, reference, neighborhood=hamming_neighbors):
+        return 1
+    if maxdist == 2 or _isdist2_hamming(seq, reference):
+        return 2
+    if maxdist == 3 or _isdist3_hamming(seq, reference):
+        return 3
+    return 4
+
+def _flatten_list(inlist):
+    return [item for sublist in inlist for item in sublist]
+'''
+
+
+def parts_of(t):
+    t = strip(t)
+    if head(t) == "bin" and t[1] == "+":
+        return parts_of(t[2]) + parts_of(t[3])
+    return [t]
+
+
+def classify_edit(value, x):
+    """('DEL', i) | ('SUB', i, a) | ('INS', i, a) | None for a yielded string built from slices of x and one symbol."""
+    ps = parts_of(value)
+    ctx = RFContext()
+
+    def sl(p):
+        p = strip(p)
+        if head(p) == "sub" and strip(p[1]) == x and head(strip(p[2])) == "slice" and is_const(strip(p[2])[3], None):
+            s_ = strip(p[2])
+            return (s_[1], s_[2])
+        return None
+    if len(ps) == 2 and sl(ps[0]) and sl(ps[1]):
+        (lo0, hi0), (lo1, hi1) = sl(ps[0]), sl(ps[1])
+        if (is_const(lo0, None) or is_const(lo0, 0)) and is_const(hi1, None) and not is_const(hi0, None) and not is_const(lo1, None):
+            d = ctx.rf(lo1) - ctx.rf(hi0)
+            if d.is_const() and d.const_value() == 1:
+                return ("DEL", strip(hi0))
+    if len(ps) == 3 and sl(ps[0]) and sl(ps[2]) and sl(ps[1]) is None:
+        (lo0, hi0), (lo1, hi1) = sl(ps[0]), sl(ps[2])
+        if (is_const(lo0, None) or is_const(lo0, 0)) and is_const(hi1, None) and not is_const(hi0, None) and not is_const(lo1, None):
+            d = ctx.rf(lo1) - ctx.rf(hi0)
+            if d.is_const() and d.const_value() == 1:
+                return ("SUB", strip(hi0), strip(ps[1]))
+            if d.is_const() and d.const_value() == 0:
+                return ("INS", strip(hi0), strip(ps[1]))
+    return None
+
+
+def _range_is(it, lo, hi_term_plus):
+    """iterable == range(lo, len(x) + k) (RF equality)."""
+    it = strip(it)
+    if not (head(it) == "call" and strip(it[1]) == ("glob", "builtins.range") and not it[3] and 1 <= len(it[2]) <= 2):
+        return False
+    a = it[2]
+    l, h = (const(0), a[0]) if len(a) == 1 else (a[0], a[1])
+    ctx = RFContext()
+    return ctx.rf(l).same(ctx.rf(lo)) and ctx.rf(h).same(ctx.rf(hi_term_plus))
+
+
+def guard_equiv(guards, accepted):
+    """Is the conjunction of the event's guards equivalent to 'not skip' for one of the accepted skip conditions?"""
+    g = ("and", tuple((gt if pol else ("un", "not", gt)) for gt, pol in guards)) if guards else TRUE
+    T = lambda c: ("ite", c, TRUE, FALSE)
+    isint = lambda t: head(t) in ("iter", "elem") or (head(t) == "call" and strip(t[1]) == ("glob", "builtins.len"))
+    for k, skip in enumerate(accepted):
+        m, _ = compare_trees(T(strip_all(g)), T(("un", "not", strip_all(skip))), lambda a, b: a == b, int_subjects=isint)
+        if not m:
+            return k
+    return None
+
+
+def check_generator(r, rule, q, families, alphabet_default="pyrepseq.io.aminoacids"):
+    rep = r.rep
+    s = r.A.summary(q)
+    rep.analysed(q)
+    x = ("param", s.params[0][0])
+    n = ("call", ("glob", "builtins.len"), (x,), ())
+    ys = s.events_of("yield")
+    where = where_of(r.P, s.func, s.func.node)
+    alpha = None
+    for name, default, kind in s.params:
+        if name == "alphabet":
+            alpha = ("param", name)
+            rep.ob(rule, q, default == ("glob", alphabet_default), "the default alphabet is the 20 amino-acid letters", where, expected=alphabet_default, found=show(default, 40), key="default alphabet")
+    seen = {}
+    for e in ys:
+        w = where_of(r.P, s.func, e.node)
+        ed = classify_edit(e["value"], x)
+        if ed is None:
+            rep.ob(rule, q, False, "every yielded string is one deletion, substitution or insertion applied to x", w, expected="x[:i] + x[i+1:] | x[:i] + a + x[i+1:] | x[:i] + a + x[i:]", found=show(e["value"], 80), key=f"edit form {show(e['value'], 60)}")
+            continue
+        kind = ed[0]
+        seen.setdefault(kind, []).append(e)
+        if kind not in families:
+            rep.ob(rule, q, False, f"{q.rsplit('.', 1)[1]} yields only {'/'.join(families)} edits", w, expected="/".join(families), found=kind, key=f"family {kind}")
+            continue
+        lps = [s.loops[l] for l in e.ctx.loops]
+        i = ed[1]
+        pos_loop = next((lp for lp in lps if lp.elem == i), None)
+        okpos = pos_loop is not None
+        if okpos:
+            dom = families[kind]["positions"]
+            it = strip(pos_loop.iterable)
+            if dom == "n":
+                okpos = _range_is(it, const(0), n)
+            elif dom == "n+1":
+                okpos = _range_is(it, const(0), ("bin", "+", n, const(1)))
+            elif dom == "vp":
+                vp = [p for p in s.params if p[0] == "variable_positions"]
+                want = ("ite", ("cmp", "is", ("param", "variable_positions"), NONE), ("call", ("glob", "builtins.range"), (n,), ()), ("param", "variable_positions")) if vp else None
+                okpos = want is not None and strip_all(it) == want
+        rep.ob(rule, q, okpos, f"{kind}: the edited position ranges over {families[kind]['positions_text']}", w, expected=families[kind]["positions_text"],
+               found=show(pos_loop.iterable, 60) if pos_loop else f"position {show(i, 30)} is not a loop variable", key=f"{kind} positions")
+        a = None
+        if kind in ("SUB", "INS"):
+            a = ed[2]
+            aloop = next((lp for lp in lps if lp.elem == a), None)
+            oka = aloop is not None and alpha is not None and strip(aloop.iterable) == alpha
+            rep.ob(rule, q, oka, f"{kind}: the new letter ranges over the whole alphabet", w, expected="for aa in alphabet", found=show(aloop.iterable, 40) if aloop else "not a loop variable", key=f"{kind} letters")
+        rep.ob(rule, q, len(lps) == (1 if kind == "DEL" else 2), f"{kind}: no further loop multiplies the yields", w, expected="1 loop (DEL) / 2 loops (SUB, INS)", found=f"{len(lps)} loops", key=f"{kind} loop depth")
+        xi = ("sub", x, i)
+        xim1 = ("sub", x, ("bin", "-", i, const(1)))
+        xip1 = ("sub", x, ("bin", "+", i, const(1)))
+        if kind == "DEL":
+            accepted = [("and", (("cmp", ">", i, const(0)), ("cmp", "==", xi, xim1))), ("and", (("cmp", "<", i, ("bin", "-", n, const(1))), ("cmp", "==", xi, xip1)))]
+            txt = "skip iff the deleted letter repeats its predecessor (or: its successor)"
+        elif kind == "SUB":
+            accepted = [("cmp", "==", a, xi)]
+            txt = "skip iff the new letter equals the old one"
+        else:
+            accepted = [("and", (("cmp", ">", i, const(0)), ("cmp", "==", a, xim1))), ("and", (("cmp", "<", i, n), ("cmp", "==", a, xi)))]
+            txt = "skip iff the inserted letter equals the letter before (or: at) the insertion point"
+        k = guard_equiv(e.ctx.guards, accepted)
+        rep.ob(rule, q, k is not None, f"{kind}: {txt} - nothing else is skipped, nothing is yielded twice (A.3)", w, expected=" | ".join(show(a_, 70) for a_ in accepted),
+               found="not(" + " and ".join(("" if pol else "not ") + show(g, 70) for g, pol in e.ctx.guards) + ")" if e.ctx.guards else "unguarded", key=f"{kind} guard")
+    for kind in families:
+        cnt = len(seen.get(kind, []))
+        rep.ob(rule, q, cnt == 1, f"exactly one enumeration block yields {kind} edits", where, expected="1 yield", found=f"{cnt} yield(s)", key=f"{kind} block count")
 
 
 def run(r):
-    raise AnalysisBroken("rule set for C12 not implemented yet (fail-closed stub)")
+    rep = r.rep
+    rep.explanation = "Every yield of the two generators was normalised to an edit term with its domains and guard; the set utilities and nested enumerations were compared loop-closed with the specification."
+    rep.trust("DESIGN Appendix A.3: the canonical one-edit enumeration lists every string at distance exactly 1 once", "DESIGN Appendix A.4: breadth-first ball / nested substitution enumeration")
+    check_generator(r, "C12-LEV", D + "levenshtein_neighbors", {
+        "DEL": {"positions": "n", "positions_text": "0 .. len(x)-1"}, "SUB": {"positions": "n", "positions_text": "0 .. len(x)-1"}, "INS": {"positions": "n+1", "positions_text": "0 .. len(x)"}})
+    check_generator(r, "C12-HAM", D + "hamming_neighbors", {"SUB": {"positions": "vp", "positions_text": "variable_positions, default range(len(x))"}})
+    eq = Equiv(rewrites=std_rewrites() + [canon_binders], modelled={"builtins.set", "builtins.sorted", "builtins.list", "builtins.range", "builtins.enumerate"})
+    for name, what in (("next_nearest_neighbors", "every string within maxdistance neighbourhood steps except x: maxdistance-1 further rounds, each expanding the previous round"),
+                       ("find_neighbor_pairs", "each unordered neighbour pair once: set(neighborhood(x)) & reference with x removed from the reference after its visit"),
+                       ("find_neighbor_pairs_index", "(index of x, index of partner) for every partner in set(neighborhood(x)) & reference"),
+                       ("calculate_neighbor_numbers", "number of neighbours = |set(neighborhood(seq)) & reference|, reference defaulting to set(seqs)"),
+                       ("isdist1", "True iff some neighbour of x is in the reference"),
+                       ("_isdist2_hamming", "two substitutions at strictly increasing positions, identity skipped at both levels, membership of the fully substituted string"),
+                       ("_isdist3_hamming", "three substitutions at strictly increasing positions, identity skipped at every level, membership of the fully substituted string"),
+                       ("nndist_hamming", "first d in 0..3 with a hit or maxdist == d, else 4; maxdist > 4 raises"),
+                       ("_flatten_list", "concatenation of the sub-lists")):
+        rule = "C12-ND" if "dist" in name and name != "isdist1" else "C12-NNN" if name in ("next_nearest_neighbors", "_flatten_list") else "C12-PAIRS"
+        compare_function(r, rule, D + name, SPEC, f"{name}: {what}", eq=eq, key=name)
+    for rule, fl in (("C12-LEV", 14), ("C12-HAM", 5), ("C12-NNN", 2), ("C12-PAIRS", 4), ("C12-ND", 3)):
+        rep.floor(rule, fl)
+
+
+from ..selftest import V  # noqa: E402
+
+DI = "pyrepseq/distance.py"
+VARIANTS = [
+    V("isdist2-inner-skips-adjacent", DI, "            for j in range(i + 1, len(x)):\n                for aaj in aminoacids:\n                    if aaj == x[j]:\n                        continue\n                    if si[:j]", "            for j in range(i + 2, len(x)):\n                for aaj in aminoacids:\n                    if aaj == x[j]:\n                        continue\n                    if si[:j]", rule="C12-ND"),
+    V("insertion-guard-without-i>0", DI, "            if (i > 0) and (aa == x[i - 1]):\n                continue", "            if aa == x[i - 1]:\n                continue", rule="C12-LEV"),
+    V("deletion-unguarded", DI, "        if (i > 0) and (x[i] == x[i - 1]):\n            continue\n        yield x[:i] + x[i + 1 :]", "        yield x[:i] + x[i + 1 :]", rule="C12-LEV"),
+    V("discard-x-removed", DI, "    neighbor_set.discard(x)\n", "", rule="C12-NNN"),
+    V("reference-remove-removed", DI, "        reference.remove(x)\n", "", rule="C12-PAIRS"),
+    V("insertion-range-short", DI, "    for i in range(len(x) + 1):\n        for aa in alphabet:", "    for i in range(len(x)):\n        for aa in alphabet:", rule="C12-LEV"),
+    V("substitution-unguarded", DI, "            # do not replace with same amino acid\n            if aa == x[i]:\n                continue\n", "", rule="C12-LEV"),
+    V("substitution-yields-insertion", DI, "            yield x[:i] + aa + x[i + 1 :]\n    # insertion", "            yield x[:i] + aa + x[i:]\n    # insertion", rule="C12-LEV"),
+    V("hamming-skips-position-zero", DI, "    if variable_positions is None:\n        variable_positions = range(len(x))", "    if variable_positions is None:\n        variable_positions = range(1, len(x))", rule="C12-HAM"),
+    V("nndist-wrong-order", DI, "    if (maxdist == 2) or _isdist2_hamming(seq, reference):\n        return 2", "    if (maxdist == 2) or _isdist3_hamming(seq, reference):\n        return 2", rule="C12-ND"),
+    V("isdist3-reuses-second-letter", DI, "                            if sij[:k] + aak + sij[k + 1 :] in reference:", "                            if sij[:k] + aaj + sij[k + 1 :] in reference:", rule="C12-ND"),
+    V("nnn-one-round-too-many", DI, "    while distance < maxdistance:", "    while distance <= maxdistance:", rule="C12-NNN"),
+    V("neighbor-numbers-no-set", DI, "len(set(neighborhood(seq)) & reference) for seq in seqs", "len(set(neighborhood(seq)) | reference) for seq in seqs", rule="C12-PAIRS"),
+    V("deletion-guard-too-strong", DI, "        if (i > 0) and (x[i] == x[i - 1]):\n            continue\n        yield x[:i] + x[i + 1 :]", "        if (i > 0) and (x[i] == x[i - 1] or x[i] == x[0]):\n            continue\n        yield x[:i] + x[i + 1 :]", rule="C12-LEV"),
+    V("silent-last-of-run-deletion", DI, "        if (i > 0) and (x[i] == x[i - 1]):\n            continue\n        yield x[:i] + x[i + 1 :]", "        if (i < len(x) - 1) and (x[i] == x[i + 1]):\n            continue\n        yield x[:i] + x[i + 1 :]", expect="silent"),
+    V("silent-i>=1", DI, "            if (i > 0) and (aa == x[i - 1]):\n                continue", "            if (i >= 1) and (x[i - 1] == aa):\n                continue", expect="silent"),
+    V("silent-positive-guard", DI, "            # do not replace with same amino acid\n            if aa == x[i]:\n                continue\n            yield x[:i] + aa + x[i + 1 :]\n    # insertion", "            if aa != x[i]:\n                yield x[:i] + aa + x[i + 1 :]\n    # insertion", expect="silent"),
+]
